@@ -246,6 +246,16 @@ func propC09(r *Run) {
 			r.Logf("first attempt of %s with an injected fault -> %v", op, ferr)
 			if ferr != nil {
 				r.Count("probe:retry-after-reported-failure")
+				if r.Choose("retry-from-new-process", 2) == 1 {
+					// the operator runs the command again: a new process, a new instance, nothing of
+					// what the failed one remembered
+					if nd, nerr := w.newDir("/etc/whawty/store0.yaml"); nerr == nil {
+						w.dirs[0] = nd
+						r.Count("probe:retry-through-new-instance")
+					} else {
+						r.Fail("harness/config", "second instance: %v", nerr)
+					}
+				}
 				if op.Kind == "add" {
 					// a failed add may (known finding aside) not leave the user behind; if it did, the retry is an update
 					if _, _, on := w.userFile(op.User); on {
